@@ -25,6 +25,15 @@ Proofs/NameWireP.vos Proofs/NameWireP.vok Proofs/NameWireP.required_vos: Proofs/
 Proofs/NameWireSP.vo Proofs/NameWireSP.glob Proofs/NameWireSP.v.beautified Proofs/NameWireSP.required_vo: Proofs/NameWireSP.v Base/ListX.vo Spec/NameWireS.vo
 Proofs/NameWireSP.vio: Proofs/NameWireSP.v Base/ListX.vio Spec/NameWireS.vio
 Proofs/NameWireSP.vos Proofs/NameWireSP.vok Proofs/NameWireSP.required_vos: Proofs/NameWireSP.v Base/ListX.vos Spec/NameWireS.vos
+Proofs/TsigEncP.vo Proofs/TsigEncP.glob Proofs/TsigEncP.v.beautified Proofs/TsigEncP.required_vo: Proofs/TsigEncP.v Base/ListX.vo Model/TsigMsg.vo Spec/Tsig8945S.vo
+Proofs/TsigEncP.vio: Proofs/TsigEncP.v Base/ListX.vio Model/TsigMsg.vio Spec/Tsig8945S.vio
+Proofs/TsigEncP.vos Proofs/TsigEncP.vok Proofs/TsigEncP.required_vos: Proofs/TsigEncP.v Base/ListX.vos Model/TsigMsg.vos Spec/Tsig8945S.vos
+Proofs/TsigMsgP.vo Proofs/TsigMsgP.glob Proofs/TsigMsgP.v.beautified Proofs/TsigMsgP.required_vo: Proofs/TsigMsgP.v Base/ListX.vo Model/TsigMsg.vo Spec/Tsig8945S.vo Spec/TsigRepr.vo Spec/NameRepr.vo Proofs/NameWireP.vo Proofs/TsigEncP.vo
+Proofs/TsigMsgP.vio: Proofs/TsigMsgP.v Base/ListX.vio Model/TsigMsg.vio Spec/Tsig8945S.vio Spec/TsigRepr.vio Spec/NameRepr.vio Proofs/NameWireP.vio Proofs/TsigEncP.vio
+Proofs/TsigMsgP.vos Proofs/TsigMsgP.vok Proofs/TsigMsgP.required_vos: Proofs/TsigMsgP.v Base/ListX.vos Model/TsigMsg.vos Spec/Tsig8945S.vos Spec/TsigRepr.vos Spec/NameRepr.vos Proofs/NameWireP.vos Proofs/TsigEncP.vos
+Props/C11.vo Props/C11.glob Props/C11.v.beautified Props/C11.required_vo: Props/C11.v Base/ListX.vo Model/TsigMsg.vo Spec/Tsig8945S.vo Spec/TsigRepr.vo Proofs/TsigEncP.vo Proofs/TsigMsgP.vo
+Props/C11.vio: Props/C11.v Base/ListX.vio Model/TsigMsg.vio Spec/Tsig8945S.vio Spec/TsigRepr.vio Proofs/TsigEncP.vio Proofs/TsigMsgP.vio
+Props/C11.vos Props/C11.vok Props/C11.required_vos: Props/C11.v Base/ListX.vos Model/TsigMsg.vos Spec/Tsig8945S.vos Spec/TsigRepr.vos Proofs/TsigEncP.vos Proofs/TsigMsgP.vos
 Props/C14.vo Props/C14.glob Props/C14.v.beautified Props/C14.required_vo: Props/C14.v Base/ListX.vo Model/NameWire.vo Spec/NameWireS.vo Spec/NameRepr.vo Proofs/NameWireP.vo Proofs/NameWireSP.vo
 Props/C14.vio: Props/C14.v Base/ListX.vio Model/NameWire.vio Spec/NameWireS.vio Spec/NameRepr.vio Proofs/NameWireP.vio Proofs/NameWireSP.vio
 Props/C14.vos Props/C14.vok Props/C14.required_vos: Props/C14.v Base/ListX.vos Model/NameWire.vos Spec/NameWireS.vos Spec/NameRepr.vos Proofs/NameWireP.vos Proofs/NameWireSP.vos
@@ -34,3 +43,9 @@ Spec/NameRepr.vos Spec/NameRepr.vok Spec/NameRepr.required_vos: Spec/NameRepr.v 
 Spec/NameWireS.vo Spec/NameWireS.glob Spec/NameWireS.v.beautified Spec/NameWireS.required_vo: Spec/NameWireS.v Base/Res.vo Base/Octets.vo
 Spec/NameWireS.vio: Spec/NameWireS.v Base/Res.vio Base/Octets.vio
 Spec/NameWireS.vos Spec/NameWireS.vok Spec/NameWireS.required_vos: Spec/NameWireS.v Base/Res.vos Base/Octets.vos
+Spec/Tsig8945S.vo Spec/Tsig8945S.glob Spec/Tsig8945S.v.beautified Spec/Tsig8945S.required_vo: Spec/Tsig8945S.v Base/Res.vo Base/Octets.vo Spec/NameWireS.vo
+Spec/Tsig8945S.vio: Spec/Tsig8945S.v Base/Res.vio Base/Octets.vio Spec/NameWireS.vio
+Spec/Tsig8945S.vos Spec/Tsig8945S.vok Spec/Tsig8945S.required_vos: Spec/Tsig8945S.v Base/Res.vos Base/Octets.vos Spec/NameWireS.vos
+Spec/TsigRepr.vo Spec/TsigRepr.glob Spec/TsigRepr.v.beautified Spec/TsigRepr.required_vo: Spec/TsigRepr.v Model/TsigMsg.vo Spec/Tsig8945S.vo
+Spec/TsigRepr.vio: Spec/TsigRepr.v Model/TsigMsg.vio Spec/Tsig8945S.vio
+Spec/TsigRepr.vos Spec/TsigRepr.vok Spec/TsigRepr.required_vos: Spec/TsigRepr.v Model/TsigMsg.vos Spec/Tsig8945S.vos
